@@ -23,7 +23,7 @@ from sx import rt
 from sx.core import ctx
 from sx.terms import DIGIT, LOWER, UPPER, PChar
 
-BOUNDS = {"quick": {"countries": "the 22 countries with a national algorithm + DE + 8 seeded others + the no-country form", "modes": "registry / no registry", "pins": "none; branch; bank+branch+account", "iterations": "2 of the 100 retries", "registry draws": "codes of the country's list (chunks of 400, one seeded chunk per country)"},
+BOUNDS = {"quick": {"countries": "the 22 countries with a national algorithm + DE + 8 seeded others + the no-country form", "modes": "registry / no registry", "pins": "none; branch; bank+branch+account", "iterations": "2 of the 100 retries", "hash seed": "two iteration orders of every set iterated by the library (fresh interpreters), sequences handed to choice() compared", "registry draws": "codes of the country's list (chunks of 400, one seeded chunk per country)"},
           "thorough": {"countries": "all", "modes": "both", "pins": "none; bank; branch; account; bank+branch; all three", "iterations": 2, "registry draws": "all chunks"}}
 STUBS = ["random.Random.choice: arbitrary element (fork / symbolic bank code constrained to the listed codes)", "rstr.Rstr(random).xeger(regex): arbitrary string matching the regex token by token (\\d = ASCII digits, as rstr draws them)", "range(100) of the retry loop cut to 2 iterations"]
 ASSUMPTIONS = ["IT/SM: alphanumeric account characters (drawn or pinned) restricted to digits (letter patterns: C09-A)", "random and rstr are deterministic functions of the seed (their own cross-process behaviour is outside)", "over-long pinned values are truncated by the code (observation, not asserted)", "pin sets other than those listed", "iterations are independent: fresh draws, no carried state"]
